@@ -384,6 +384,23 @@ def games(shard, rabin=False, modes=MODES):
     return b_games(shard, rabin, modes)
 
 
+def ownership_changes(aut, case):
+    """Hand the first environment variable to the component, then the first
+    component variable to the environment, editing `aut.varlist` IN PLACE;
+    yields (moved variable, destination, case with the new ownership)."""
+    hints = dict((n, h) for n, h in case['env'] + case['sys'])
+    for src, dst in (('env', 'sys'), ('sys', 'env')):
+        if not aut.varlist[src]:
+            continue
+        v = aut.varlist[src][0]
+        aut.varlist[src].remove(v)
+        aut.varlist[dst].append(v)
+        c2 = dict(case)
+        c2['env'] = [[n, hints[n]] for n in aut.varlist['env']]
+        c2['sys'] = [[n, hints[n]] for n in aut.varlist['sys']]
+        yield v, dst, c2
+
+
 def game_sequences(shard, rabin=False, length=4):
     """Sequences of games sharing declarations and actions, to be solved
     one after the other in one automaton: modes rotated, liveness changed."""
